@@ -376,7 +376,10 @@ func (ss *Package) messageProperties(parent RootSchema, src protoreflect.Message
 				nameInParent: "[]",
 			}
 
-			childExt := protoFieldExtensions{}
+			// the list rules of the item type are written on the repeated field itself
+			childExt := protoFieldExtensions{
+				list: ext.list,
+			}
 
 			repeatedValidate := ext.validate.GetRepeated()
 			if repeatedValidate != nil {
